@@ -7,13 +7,98 @@ VERIF = os.path.dirname(os.path.dirname(os.path.abspath(__file__)))
 
 TECH = "symbolic execution of the real labrea source with CrossHair 0.0.110 / z3 (path-exhaustive within stated bounds), counterexamples replayed concretely"
 
+_T = "CrossHair's model of CPython (engine patches E1-E7); "
 CLAIMED = {
     # id: (design_ref, level text, level note)
+    "C01": ("DESIGN.md 7/C01",
+            "Bounded symbolic model checking of the real caching stack: (L1) for every catalog graph, z3 decides that two dictionaries with "
+            "equal reported keys and values (= equal fingerprints) have equal outcomes, o2 being o1 perturbed in one slot (thorough: two "
+            "slots / fully independent); (L3) on one long-lived graph with the real Cached/MemoryCache/handlers/Dataset._composed, the "
+            "history o_a, o_b, o_a returns what the same graph returns with caching off. Unbounded ints, symbolic presence/shape.",
+            _T + "graphs are an enumerated catalog (41 specs); stub S1 abstracts json bytes in L3 (discharged by C03 lemma J); histories of length 3."),
+    "C02": ("DESIGN.md 7/C02",
+            "Bounded symbolic model checking of memoization effectiveness on one long-lived graph per cached catalog graph: history o_a, "
+            "o_a' (extra unmentioned key, permuted top-level order), o_b (one slot perturbed), o_a; body/effect recorders; z3 decides the "
+            "counts for every value and shape.",
+            _T + "catalog of cached graphs; history of length 4; stub S1."),
+    "C03": ("DESIGN.md 7/C03",
+            "Bounded symbolic model checking of keys(): present-only (K1) and restriction to the reported keys preserves outcome and keys "
+            "(K2) for every catalog graph and every dictionary over its universe; lemma J (K3) on the real fingerprint()/json encoder for "
+            "bounded ints; hash-seed independence (K4) through a symbolic permutation of the key set's iteration order.",
+            _T + "catalog; ints bounded to |n| <= 50 in lemma J; set iteration order is the only channel for PYTHONHASHSEED."),
     "C04": ("DESIGN.md 7/C04",
             "Bounded symbolic model checking of Option.evaluate/validate/keys/set, Namespace and domain enforcement: for each key of a "
             "concrete key universe and each default/domain form, z3 decides the assertion for every value (unbounded ints, all "
             "unicode strings up to length 2, every falsy value) on every execution path of the real code.",
-            "CrossHair's model of CPython; key names, default forms and domains are an enumerated catalog; int-to-text rendering bounded to -9..99."),
+            _T + "key names, default forms and domains are an enumerated catalog; int-to-text rendering bounded to -9..99."),
+    "C05": ("DESIGN.md 7/C05",
+            "Differential symbolic model checking: for each catalog graph the real evaluation is compared with an independent eager "
+            "reference interpreter for every dictionary over the graph's universe (unbounded ints, presence/shape symbolic).",
+            _T + "graphs enumerated (44 specs); the reference interpreter (engine/catalog.py, engine/refsem.py) is trusted."),
+    "C06": ("DESIGN.md 7/C06",
+            "Same runs as C05 with recording bodies: z3 decides, for every dictionary, that the bodies run are a subset of those the "
+            "lazy reference needs, in dependency order, and that nothing runs at construction.",
+            _T + "catalog; construction-time laziness is a concrete fact checked on every path."),
+    "C07": ("DESIGN.md 7/C07",
+            "Bounded symbolic model checking of overload/interface dispatch against a table model: histories of register / overload / "
+            "set_dispatch operations with evaluations after each, symbolic dispatch values and payloads; rejected implementations "
+            "change nothing for any dispatch value.",
+            _T + "histories of length <= 2 (quick) / 3 (thorough); interface classes are concrete catalog entries defined untraced."),
+    "C08": ("DESIGN.md 7/C08",
+            "Bounded symbolic model checking of option overlay: P, D and o symbolic over a nested universe (presence and values), 8 wrapper / "
+            "decorator / with_options forms incl. nesting depth 3, compared with the reference overlay; deep snapshots prove no mutation.",
+            _T + "universe of 4 nested keys; forms enumerated; stub S1 for the shared-cache harness."),
+    "C09": ("DESIGN.md 7/C09",
+            "Bounded symbolic model checking of templating: lexing for all unicode strings of length <= 4 against an independent scanner; "
+            "512 token-composed templates and 7 nested value shapes with symbolic option values against the reference substitution, "
+            "including keys()/explain() coverage of every read.",
+            _T + "strings <= 4 chars; ints rendered as text bounded to -9..99; parameter values without braces; @env unused."),
+    "C10": ("DESIGN.md 7/C10",
+            "Bounded symbolic model checking: validate, keys and evaluate succeed or fail together for every catalog graph and dictionary; "
+            "bodies run during validate/keys are confined to branch selectors.",
+            _T + "catalog; cold caches (warm-cache variant in the thorough tier)."),
+    "C11": ("DESIGN.md 7/C11",
+            "Bounded symbolic model checking of explain(): superset of keys(), absent listed keys <=> validate fails, missing-key failures "
+            "name a listed key, only InsufficientInformationError escapes; every sub-dictionary is a value of the presence flags.",
+            _T + "catalog."),
+    "C12": ("DESIGN.md 7/C12",
+            "Bounded symbolic fault enumeration: fault flags on up to 4 user callables x missing options x raised exception type; z3 decides "
+            "that evaluate fails iff the reference fails, with EvaluationError, source identity and a cause chain ending in the very "
+            "exception object; on a long-lived graph a failed evaluation changes no later outcome.",
+            _T + "catalog; stub S1 for histories of length 3."),
+    "C13": ("DESIGN.md 7/C13",
+            "Bounded symbolic model checking of pipelines: every bracketing of <= 4 steps (4 step flavours) for all ints; identities; >>; "
+            "every helper of labrea.functions against the Python operation with recording operands / symbolic ints / symbolic membership.",
+            _T + "k <= 4 quick; helper list enumerated by reflection (a helper without a harness fails the check)."),
+    "C14": ("DESIGN.md 7/C14",
+            "Bounded model checking of the runtime stack against a handler-map stack model: every sequence of 3 (thorough: 4, 5) operations "
+            "out of 10, thread with/without a runtime, all request types served after every step, identity of the current runtime.",
+            _T + "the solver's role is exhaustive enumeration of operation vectors; no value reasoning."),
+    "C15": ("DESIGN.md 7/C15",
+            "Bounded model checking of real threads under a deterministic scheduler: the schedule (start thread + context-switch offsets) is "
+            "the symbolic variable; operation-, line- and bytecode-level yield points in runtime.py / overload.py / dataset.py / cache.py.",
+            _T + "the solver only enumerates schedule vectors; <= 4 switches at operation level, 1 (thorough 2) at line/bytecode level; GIL "
+                 "atomicity of single bytecodes assumed; cooperative locks replace threading.Lock."),
+    "C16": ("DESIGN.md 7/C16",
+            "Bounded symbolic model checking of the feature switches: 2-step (thorough 3-step) histories on one long-lived graph over the "
+            "cross product of cache/effects/logging settings, against a store model; recording cache, effects and logger.",
+            _T + "stub S1; the stdlib logger is replaced by a recorder."),
+    "C17": ("DESIGN.md 7/C17",
+            "Bounded symbolic fault enumeration over a contract-following faulty Cache backend: every assignment of {behave, miss/forget, "
+            "lie-exists, fail-get} to a window of consecutive backend calls, for all option values.",
+            _T + "windows of 4 (unit) / 3 (composed) calls; stub S1."),
+    "C18": ("DESIGN.md 7/C18",
+            "Bounded symbolic model checking with pass-through handlers for the nine request types on every catalog graph: same results, "
+            "and the multiset of raw implementation calls equals the requests seen; reflection over all node classes; substitution.",
+            _T + "catalog; stub S1; recorders wrap __labrea_<op>__ of every labrea class."),
+    "C19": ("DESIGN.md 7/C19",
+            "Bounded symbolic model checking of dataset classes: members vs member-wise reference, class keys/validate/explain unions, "
+            "equality <=> equality of the restricted dictionaries (single-key perturbations), repr.",
+            _T + "two class hierarchies defined at import; repr checked on concrete values."),
+    "C20": ("DESIGN.md 7/C20",
+            "Bounded symbolic model checking of pickle round trips: 5 module-level graphs x protocols 0-5 x (same process | bytes from a "
+            "fresh interpreter): same outcome and keys for every dictionary, late registration on the copy.",
+            _T + "explicit dataset(f) form; the decorator form is a known finding; stub S1."),
 }
 
 NOT_YET = "check not built yet in this session (machinery under construction); see DESIGN.md section 7"
